@@ -25,8 +25,8 @@ OUTSIDE = ["names longer than 2 characters, fan-out > 3, depth > 3", "which defa
 STUBS = ["every command uses lenient argument parsing so that selection is observed independently of C01/C02 parse failures"]
 ASSUMPTIONS = ["'continuing into that command's default sub-command' is one level deep (the statement says 'that command's default sub-command')"]
 
-MENU = ["s", "sv", "a", "ad", "l", "x", "xx", "r", "h", "d", "zz", "-v", "--", "--a", "t-u", "a-d", "n", "z-z"]
-MENU3 = ["a", "ad", "x", "xx", "zz", "-v", "--", "--a", "l", "a-d", "n"]        # quick: third token
+MENU = ["s", "sv", "a", "ad", "l", "x", "xx", "r", "h", "d", "zz", "-v", "--", "--a", "t-u", "a-d", "n", "z-z", "c", "u"]
+MENU3 = ["a", "ad", "x", "xx", "zz", "-v", "--", "--a", "l", "a-d", "n", "u"]        # quick: third token
 
 
 class Node:
@@ -39,14 +39,16 @@ def make_tree(bits):
     return [
         Node("s", ["sv"], subs=[
             Node("a", ["ad", "a-d"], disabled=a_disabled, subs=[Node("x", ["xx"], default=x_default), Node("y")]),
-            Node("l", default=l_default),
+            Node("l", default=l_default, subs=[Node("u", ["uu"]), Node("w")]),      # a NAMED (possibly default) sub-command with sub-commands of its own
             Node("m", default=m_default),
             Node("n", default=True, anonymous=True, subs=[Node("a")]),      # an anonymous sub-command: cannot be named
         ]),
+        Node("c", subs=[Node("p", default=True, anonymous=True), Node("q", anonymous=True)]),      # all sub-commands anonymous, one of them the default
         Node("t-u"),                                                        # a hyphenated command name
         Node("r", default=r_default or r_anon, anonymous=r_anon),
         Node("h", hidden=h_hidden, subs=[Node("a")]),
         Node("d", disabled=d_disabled),
+        Node("k", ["s", "kk"]),                                             # an alias that is the NAME of a command registered earlier: a command's own name always identifies that command
     ]
 
 
@@ -84,7 +86,7 @@ def expected(tree, tokens):
     cur, path = None, []
     level = [n for n in tree if not n.disabled]
     for name in leading:
-        hit = [n for n in level if not n.anonymous and (n.name == name or name in n.aliases)]
+        hit = [n for n in level if not n.anonymous and n.name == name] or [n for n in level if not n.anonymous and name in n.aliases]
         if not hit:
             break
         cur = hit[0]
@@ -169,7 +171,7 @@ def conditions(tier):
     quick = tier == "quick"
     t = 120 if quick else 1500
     conds = [{"name": "resolve0", "fn": resolve0, "timeout": t, "bounds": "no leading tokens / only options / only a '--' tail; default-command bits symbolic"}]
-    MENU4 = ["a", "zz", "-v", "--"]
+    MENU4 = ["a", "zz", "-v", "--", "u"]
     for k1 in range(len(MENU)):
         deep = MENU[k1] in ("s", "sv")                    # the tokens that open the deep part of the tree get the large menus
         variants = [(True, True, False)] if quick else [(True, True, False), (False, False, False), (True, False, True)]
